@@ -23,6 +23,24 @@ Expect(ev) ==
   ELSE [r |-> "err", e |-> x.e, w |-> {}, enc |-> FALSE, re |-> <<>>, sec |-> "", tname |-> "",
         class |-> IF x.e = "unknown_id" THEN "unknown" ELSE "reject"]
 
+(* Truncation law (checked on the canonical vector of every message and object):
+   every proper prefix of a canonical encoding is either refused as too short, or -
+   when the cut falls where only optional / rest-of-input members remain (or inside
+   a rest-of-input member) - read as the same message with a shorter tail. No prefix
+   is read as another message, with a warning other than a dropped partial address
+   record, or refused for a constraint. *)
+TailFrom(sec, m, i) == \A j \in i..Len(SecTypes(sec, m)) : SecTypes(sec, m)[j].kind \in RawKinds \cup {"optional"}
+TruncLaw(id, ev) ==
+  LET sec == id[1] m == SecMsgs(sec)[id[2]] d == ev.in.data IN
+  \A cut \in 0..(Len(d) - 1) :
+    LET x == ParseAny(EntryOf(sec), ev.in.ord, ev.in.uuid, SubSeq(d, 1, cut)) IN
+    \/ x.r = "err" /\ x.e = "end"
+    \/ /\ x.r = "ok" /\ x.sec = sec /\ x.mi = id[2]
+       /\ x.w \subseteq {"ExcessData"}
+       /\ \E i \in 1..(Len(x.v) + 1) :
+            /\ TailFrom(sec, m, i)
+            /\ \A j \in 1..(i - 1) : x.v[j] = VecVals(id)[j]
+
 (* The law TLC checks on every vector: the operational reading of the encoded
    value tuple succeeds exactly when the declared constraints hold, returns the
    same message and the same values, and the canonical tuple of every message is
@@ -37,7 +55,7 @@ Law(id, ev) ==
      /\ x.r = "ok" => /\ x.sec = sec /\ x.mi = id[2]
                       /\ x.v = vals
                       /\ x.enc <=> EncodableVals(sec, m, vals)
-     /\ (id[3] = 0 /\ id[4] = 1) => Expect(ev).class = "canon"
+     /\ (id[3] = 0 /\ id[4] = 1) => Expect(ev).class = "canon" /\ TruncLaw(id, ev)
      /\ (id[3] = 0 /\ id[4] = 2) => x.r = "ok" /\ x.w = {"ExcessData"}
      /\ x.r = "err" => x.e \in {"range", "cc", "intstr"}
      /\ (sec = "obj" /\ ~IsUuidId(m) /\ id[3] = 0) => ObjSizeOf(m.id) = Len(EncBody(sec, m, CanonVals(sec, m)))
